@@ -59,7 +59,8 @@ GeneratedFails(ev) ==
     \cup (IF judged /\ meaningless /\ ev.comp.cls = "ret" /\ ev.compUnchanged
           THEN {"unresolvable_modification_silently_counted_as_empty_composition"} ELSE {})
     \cup (IF judged /\ meaningful /\ ev.mass.cls # "ret" THEN {"resolvable_modification_rejected_by_mass"} ELSE {})
-DeferredFails(ev) == IF ev.strict THEN StrictFails(ev) ELSE GeneratedFails(ev)
+DeferredFails(ev) == (IF ev.strict THEN StrictFails(ev) ELSE GeneratedFails(ev))
+                     \cup (IF ~ev.massSame THEN {"mass_of_the_same_text_changes_between_calls"} ELSE {})
 
 (* global isotope labels: a label is [massnumber]Element (or D / T) for an element of the table *)
 IsLabel(t) == \/ t \in {"D", "T"}
